@@ -4,14 +4,15 @@ from engines import kinds_in_type, kind_of_segment, KIND_FIELDS, KIND_FIELD_OWNE
 from engines import check_required_steps
 from engines import check_complete_iteration
 from prov import Prov, params_of, field_names
-from props.shared import membership_sites, term_fields
+from props.shared import membership_sites, term_fields, reductions, path_reduction_key
 
 CLAIM = ("(SIBLING) every modifier/category membership test in the crate - HpoTerm::is_modifier, HpoTerm::categories and the phenotype filter of "
          "Ontology::sub_ontology - is made on the term's ancestors UNION the term itself; (KIND) the three re-annotation loops of sub_ontology do not "
          "cross annotation kinds, all three kinds are re-annotated, each annotate call is guarded by a non-empty intersection of the record's direct "
          "terms with the modifier-filtered id set and links the record to its direct terms intersected with the UNFILTERED retained id set; "
          "(COVER) the copied term carries id, name, obsolete flag and replacement of its source; (ROLE) induced links are add_parent(parent, term) for "
-         "parents that are members of the retained id set.")
+         "parents that are members of the retained id set; (SELECT) HpoTerm::path_to_ancestor, which supplies the retained chain of each leaf, reduces "
+         "its candidate chains by minimal LENGTH.")
 NOT_DECIDED = "shortest-chain content of the retained set, exactness of the induced links, distances in the result (graph properties of runtime data)."
 
 SUB = "ontology::Ontology::sub_ontology"
@@ -181,3 +182,15 @@ def run(ck, prog, ctx):
                     if true_t and fb.edge_dominates((gbi, true_t[0]), bi):
                         g = True
         ck.ob("ROLE", "links/add_parent/%d/guard" % n, g, "the link is %s" % ("only created when the parent is a retained term" if g else "not guarded by membership of the parent in the retained ids (dangling parent)"), where=fb.where(t.line))
+
+    # ---- the retained chain is a SHORTEST one: path_to_ancestor reduces its candidate paths by length (anchor 2 of the property)
+    ck.rule("SELECT", "the chain kept for each leaf is selected by minimal LENGTH (DESIGN 3.10)")
+    pa = prog.body("term::hpoterm::HpoTerm::<'a>::path_to_ancestor")
+    if ck.anchor("SELECT", "HpoTerm::path_to_ancestor", pa):
+        reds = reductions(prog, prog.family(pa))
+        if not reds:
+            ck.undecided("SELECT", "path_to_ancestor/min", "no reduction recognised", where=pa.where())
+        else:
+            bad = [t for fb, bi, t in reds if t.callee.method.startswith("max")]
+            ck.ob("SELECT", "path_to_ancestor/min", not bad, "path_to_ancestor reduces with %s" % sorted({t.callee.method for fb, bi, t in reds}), where=pa.where())
+            path_reduction_key(ck, "SELECT", prog, Prov(prog), reds)
